@@ -11,7 +11,7 @@ FLOAT_KINDS = {'bbox'}      # float-mode companion (core.float_companion)
 FLOAT_TOL = 1e-12
 STATS = G.STATS
 PARTIAL = [
-    "length_curve: chord <= length <= control polygon ARE Lean theorems for every seminorm N (non-negative, sub-additive, positively homogeneous; the Euclidean norm over the reals IS proved to be an instance - euclid_is_seminorm, with the real-number corollaries length_curve_ge_chord_euclid / length_curve_le_control_polygon_euclid, its distance is sqrt(sum (b_i-a_i)^2) = point_distance and its radicand the normSq of C16 -, the l1 norm an instance over every ordered field), in exact arithmetic, for the model polylineLength / curveLength of operations.length_curve (sum structure tied by the 'lensum' stream) at the library's linspace sample parameters and at ANY increasing parameters; hypotheses: non-rational curve, degree >= 1, well-formed knot vector (CurveWF), clamped at the end for the upper bound / at both ends for the chord between the end control points, at least two samples for the chord bound (with sample_size 1 evalpts is the single start point and the length 0 is below the chord). MODEL SCOPE: the end-to-end chord bound and the corollaries named length_curve_* are about the whole-domain sample linspace(U_p, U_n, num) with the current sample size (evalpts as a plain evaluate() fills it); the real length_curve reads the CACHED evalpts, and after evaluate(start=, stop=) that is a sub-interval: then only curve_samples_ge_chord (chord between the first and last cached point) and polyline_le_control_polygon (any increasing parameters) apply, the end-to-end chord bound does not (quadratic (0,0),(0,4),(3,4), evaluate(start=.4, stop=.5): length 0.517 < chord 5). NOT a theorem: that floating-point sqrt / float summation respects the inequalities (the oracle checks the float values with a relative slack of 1e-12, and the exact inequalities with the l1 and max norms); rational curves (the weighted polygon is not covered)",
+    "length_curve: chord <= length <= control polygon ARE Lean theorems for every seminorm N (non-negative, sub-additive, positively homogeneous; the Euclidean norm over the reals IS proved to be an instance - euclid_is_seminorm, with the real-number corollaries length_curve_ge_chord_euclid / length_curve_le_control_polygon_euclid, its distance is sqrt(sum (b_i-a_i)^2) = point_distance and its radicand the normSq of C16 -, the l1 norm an instance over every ordered field), in exact arithmetic, for the model polylineLength / curveLength of operations.length_curve (sum structure tied by the 'lensum' stream) at the library's linspace sample parameters and at ANY increasing parameters; hypotheses: degree >= 1, well-formed knot vector (CurveWF), clamped at the end for the upper bound / at both ends for the chord between the end control points, at least two samples for the chord bound (with sample_size 1 evalpts is the single start point and the length 0 is below the chord). RATIONAL curves ARE covered (length_curve_rational_ge_chord / length_curve_rational_le_control_polygon, their _euclid corollaries over the reals, rational_polyline_le_control_polygon for any increasing parameters): homogeneous control points of dimension d+1 with ALL WEIGHTS POSITIVE, evalpts = the projected points (curveGrid true), and the polygon / chord are those of the CARTESIAN control points Pw_i / w_i (Pw.map project, what ctrlpts returns) - knot insertion on the homogeneous net is corner cutting on the Cartesian points with coefficient alpha*w_i / (alpha*w_i + (1-alpha)*w_(i-1)) in [0,1] (projected_insertion_is_corner_cutting, insertion_does_not_lengthen_rational_control_polygon) and keeps the weights positive; every sampled weight is positive (length_curve_rational_samples_weight_positive), so no projection divides by zero. Not covered: zero or negative weights (the bounds are false in general there). MODEL SCOPE: the end-to-end chord bound and the corollaries named length_curve_* are about the whole-domain sample linspace(U_p, U_n, num) with the current sample size (evalpts as a plain evaluate() fills it); the real length_curve reads the CACHED evalpts, and after evaluate(start=, stop=) that is a sub-interval: then only curve_samples_ge_chord (chord between the first and last cached point) and polyline_le_control_polygon (any increasing parameters) apply, the end-to-end chord bound does not (quadratic (0,0),(0,4),(3,4), evaluate(start=.4, stop=.5): length 0.517 < chord 5). NOT a theorem: that floating-point sqrt / float summation respects the inequalities (the oracle checks the float values with a relative slack of 1e-12, and the exact inequalities with the l1 and max norms, for non-rational and - on the projected points against the Cartesian control polygon - rational curves)",
     "hull / bounding box / clamped ends are assembled through the span search for every parameter of the closed domain (curvePoint / surfacePoint / volumePoint, rational and not); find_ctrlpts: the hull theorems are also stated with the OUTPUT of the model of operations.find_ctrlpts (curve_in_hull_of_find_ctrlpts, surface_in_hull_of_find_ctrlpts), which returns exactly the active control points (C20.findCtrlpts_exact*, C18.find_ctrlpts_returns_exactly_the_active_points; strictly inside a span all p+1 coefficients are positive: curve_point_positive_combination_of_find_ctrlpts); what is NOT a Lean theorem: the object layer's dispatch (evaluate_single -> evaluator -> these model functions; for surfaces that ctrlpts2d[a][b] is entry b + size_v*a of the flat net is a hypothesis), tied by correspondence only; the clamped-end theorems need the first span non-empty (a start knot of multiplicity > p+1 moves the start point to a later control point)",
 ]
 
@@ -65,6 +65,12 @@ def gen(rng, tier):
         except Exception:
             evs, dss = '-', '-'
         out.append(Case('lensum', "clen %s %s %s %s" % (S.args(d), fr(delta), evs, dss), dict(shape=d, n=n)))
+    # RATIONAL curves (positive weights, not all equal in 85% of the cases): chord <= length_curve <= length of the
+    # CARTESIAN control polygon (points Pw_i / w_i) - the Lean theorems length_curve_rational_ge_chord /
+    # length_curve_rational_le_control_polygon; appended last so that the streams above stay as they were
+    for _ in range(15 if tier == 'quick' else 150):
+        d = S.rand_curve(rng, rational=True, maxp=4, allow_range=False)
+        out.append(Case('length', None, dict(shape=d, n=rng.randint(2, 30))))
     return out
 
 
@@ -179,7 +185,15 @@ def oracle(c):
         from geomdl import operations
         o.sample_size = c.data['n']
         ln = float(operations.length_curve(o))
-        P = [[float(x) for x in pt] for pt in d['P']]
+        # the control polygon the bounds refer to: the control points themselves / for a rational curve the
+        # Cartesian points Pw_i / w_i (exact projection of the homogeneous input, all weights positive)
+        Pq = [[F(x) / F(pt[-1]) for x in pt[:-1]] for pt in d['P']] if d['rat'] else [[F(x) for x in pt] for pt in d['P']]
+        if d['rat']:
+            if any(F(pt[-1]) <= 0 for pt in d['P']):
+                return None      # outside the hypotheses of the theorems (never generated)
+            if [[x.q if hasattr(x, 'q') else F(x) for x in pt] for pt in o.ctrlpts] != Pq:
+                return "ctrlpts of the rational curve are not the homogeneous points divided by their weights"
+        P = [[float(x) for x in pt] for pt in Pq]
         chord = math.dist(P[0], P[-1])
         poly = sum(math.dist(a, b) for a, b in zip(P, P[1:]))
         clamped = d['kv'][0] == d['kv'][d['p']] and d['kv'][d['n']] == d['kv'][-1]
@@ -188,9 +202,9 @@ def oracle(c):
         if ln > poly * (1 + 1e-12) + 1e-12:
             return "length %r exceeds the control polygon length %r" % (ln, poly)
         # the same two bounds in EXACT arithmetic for two norms that need no square root (l1, max):
-        # what the Lean theorems length_curve_ge_chord / length_curve_le_control_polygon state
+        # what the Lean theorems length_curve_ge_chord / length_curve_le_control_polygon (rational curves:
+        # length_curve_rational_ge_chord / length_curve_rational_le_control_polygon, evalpts = projected points) state
         ev = [[x.q if hasattr(x, 'q') else F(x) for x in pt] for pt in o.evalpts]
-        Pq = [[F(x) for x in pt] for pt in d['P']]
         for name, nrm in (('l1', lambda v: sum(abs(x) for x in v)), ('max', lambda v: max(abs(x) for x in v))):
             dist = lambda a, b: nrm([y - x for x, y in zip(a, b)])
             ln_n = sum((dist(a, b) for a, b in zip(ev, ev[1:])), F(0))
